@@ -31,7 +31,8 @@ MANIFEST = dict(
     technique='abstract interpretation of MessageAny.serialize (real Builder capacity logic) over the complete header x state-init-shape x body-bits-boundary x body-refs control space; emitted cells decoded by a schema-directed decoder; typestate conformance of the readers; round trip through the package\'s own parser',
     text='Decides over all 3(+1) headers x 33 state-init shapes x body sizes at every inline/reference boundary x 0..4 body references that serialising never ends in a capacity error, that the cell is exactly a '
          '`Message Any` of block.tlb (decoded by an independent schema reading), that the package\'s parser returns the same header fields, state-init and body from it, and that the parser accepts both Either '
-         'placements (typestate). The stand-alone wrappers (state-init, tick-tock, currencies, hash update, account status, wallet and NFT data) are checked the same way.',
+         'placements (typestate). The stand-alone wrappers (state-init, tick-tock, currencies, hash update, account status, wallet and NFT data) are checked the same way.'
+         ' The parsed message serialises again to the cell it was parsed from, and its state-init to the StateInit cell that was sent.',
     note='trusted: interpreter, bitarray model, TL-B lowering/decoder, bundled block.tlb (docstring schemas for wallet/NFT types). Addresses with anycast make headers longer than any encoding allows and are outside the enumerated space.',
     design_ref='DESIGN.md section 4 C15')
 
